@@ -44,7 +44,7 @@ func (b *bitString) String() string {
 	vals := make([]string, len(b.bits))
 	for i, v := range b.bits {
 		if j := (i + 1) * 8; j <= b.len {
-			vals[i] = string(v)
+			vals[i] = string([]byte{v}) // keep the byte as it is (string(v) would UTF-8 encode it as a rune)
 		} else { // last partial byte
 			vals[i] = fmt.Sprintf("0x%x", string(v>>(j-b.len)))
 		}
